@@ -41,7 +41,7 @@ ROWS = {
        'hand-written and tied by a differential run (all 32 flag settings, every single-byte corruption of sampled replies; every single-byte corruption of plain and 1..3-fold wrapped replies through the real Rmcp)',
   tech='Lean 4 proof (byte-sum algebra, iff characterisation of the filter) + AST translator + differential correspondence'),
  'C04': dict(
-  text='33 Lean theorems over all event lists, budgets, quirks and histories - the socket\'s receive queue included - for '
+  text='34 Lean theorems over all event lists, budgets, quirks and histories - the socket\'s receive queue included - for '
        'RMCP, ipmb-dev and Aardvark (with is_ipmc_accessible): attribution through intact Send Message responses '
        'only; a CompletionCodeError only from the outstanding Send Message\'s own response; sequence numbers distinct '
        '(probes too); a match behind <= max_retries unrelated frames or time-outs is found for every request incl. '
@@ -132,7 +132,7 @@ ROWS = {
        'outcome tree (depth 5/8, budgets 1..6) on the real helpers with scripted callables; time.sleep recorded; Model/SdrXfer.lean on a scripted byte-level device, renewed-id variant probed',
   tech='Lean 4 proof (induction on the budget / outcome stream) + translator + exhaustive outcome-tree correspondence'),
  'C14': dict(
-  text='29 Lean theorems over ALL schedules, EVERY retry budget (max_retries) and EVERY loss pattern of the network, of an interleaving model of one Rmcp interface shared by any number of '
+  text='32 Lean theorems over ALL schedules, EVERY retry budget (max_retries) and EVERY loss pattern of the network, of an interleaving model of one Rmcp interface shared by any number of '
        'application threads, its own keep-alive loop (call_repeatedly: the interval elapses any number of times at '
        'any moment) and one thread that ends with close_session: each caller gets its own reply; exchanges are not '
        'interleaved on the socket; session sequence numbers are strictly increasing over the whole wire log including '
@@ -140,7 +140,7 @@ ROWS = {
        'stopper\'s join; every maximal run ends with all calls made, Close Session last, the session deactivated and '
        'the keep-alive thread terminated. The model has both variants of the stopper: as shipped (event.set only) a '
        'concrete schedule is PROVED to put the keep-alive\'s Get Device ID after Close Session with a repeated '
-       'sequence number (defect found and fixed in /repo, cd1ae83); with the join the property is proved. Second variant (sequence number allocated inside the lock, fix b0e0b42): rq_seq_distinct_on_wire for every schedule, late_reply_cannot_match; racy_seq_asShipped_counterexample. Third variant (session wrapper packed per attempt vs. once before the retry loop): a thread whose reply is lost packs again and retransmits inside the same lock hold, so session sequence numbers stay strictly increasing, retransmissions and Close Session included, and each caller gets its own reply or - only after a time-out on its own datagram whose reply was lost - an error (own_reply_or_timeout_error); packOnce_retransmission_repeats_session_seq (wire N, N, N+1) / repacked_same_schedule_is_clean; rq_seq_distinct_on_wire / late_reply_cannot_match for max_retries = 0. Today\'s source is equated with the safe variant by a theorem (source_is_safe_variant, today_all_schedules: no variant hypothesis left). Lock '
+       'sequence number (defect found and fixed in /repo, cd1ae83); with the join the property is proved. Second variant (sequence number allocated inside the lock, fix b0e0b42): rq_seq_distinct_on_wire for every schedule, late_reply_cannot_match; racy_seq_asShipped_counterexample. Third variant (session wrapper packed per attempt vs. once before the retry loop): a thread whose reply is lost packs again and retransmits inside the same lock hold, so session sequence numbers stay strictly increasing, retransmissions and Close Session included, and each caller gets its own reply or - only after a time-out on its own datagram whose reply was lost - an error (own_reply_or_timeout_error); packOnce_retransmission_repeats_session_seq (wire N, N, N+1) / repacked_same_schedule_is_clean; rq_seq_distinct_on_wire / late_reply_cannot_match for max_retries = 0. A lock chosen per target instead of the one transaction lock breaks all three clauses (lock_per_target_counterexample; Shape.oneLock is part of source_shape); exchanges of bridged targets (tx followed by several rx) are judged by the multi-datagram monitor (exchangesOk_imp_multi). Today\'s source is equated with the safe variant by a theorem (source_is_safe_variant, today_all_schedules: no variant hypothesis left). Lock '
        'scope, packing place, sequence-number updates, the `activated` guard, the keep-alive loop, what the stopper '
        'does and the shape of close_session are re-read from the AST of rmcp.py / session.py on every run '
        '(Gen/Threads.lean, theorem source_shape). The model\'s atomic steps are validated by trace inclusion: real '
